@@ -29,16 +29,21 @@ var Nop = nop
 
 // Spec names a matcher module and one configuration of it.
 type Spec struct {
-	Module string          `json:"module"` // e.g. "postgres"
-	Config json.RawMessage `json:"config"`
-	UDP    bool            `json:"udp,omitempty"` // UDP-like local/remote addresses
-	Pkg    string          `json:"-"`             // source directory under /repo/modules
+	Module string            `json:"module"` // e.g. "postgres"
+	Config json.RawMessage   `json:"config"`
+	UDP    bool              `json:"udp,omitempty"`  // UDP-like local/remote addresses
+	Pkg    string            `json:"-"`              // source directory under /repo/modules
+	Env    map[string]string `json:"env,omitempty"`  // environment the placeholders of Config refer to
+	Form   string            `json:"form,omitempty"` // placeholder form (see PlaceholderForms)
 }
 
 func (s Spec) String() string {
 	t := "tcp"
 	if s.UDP {
 		t = "udp"
+	}
+	if s.Form != "" {
+		t += "/ph:" + s.Form
 	}
 	return fmt.Sprintf("%s%s/%s", s.Module, s.Config, t)
 }
@@ -51,6 +56,7 @@ type Loaded struct {
 }
 
 func Load(s Spec) (*Loaded, error) {
+	s.exportEnv()
 	ctx, cancel := caddy.NewContext(caddy.Context{Context: context.Background()})
 	cfg := s.Config
 	if len(cfg) == 0 {
@@ -101,6 +107,20 @@ func Conn(data []byte, udp bool) (*layer4.Connection, *hm.SConn) {
 		}
 	}
 	return cx, sc
+}
+
+// ConnOn is Conn for a stream that travels inside an earlier connection (cx.Wrap, as the tls and
+// proxy_protocol handlers do): the new connection shares the earlier one's context and replacer.
+func ConnOn(outer *layer4.Connection, data []byte) *layer4.Connection {
+	sc := hm.NewSConn(nil, data, false)
+	sc.Menu = func(max int) []int { return []int{max} }
+	cx := outer.Wrap(sc)
+	for sc.Pos < len(data) {
+		if err := layer4.VerifPrefetch(cx); err != nil {
+			break
+		}
+	}
+	return cx
 }
 
 // Eval evaluates the matcher once on cx exactly as MatcherSet.Match does (freeze, Match,
